@@ -22,6 +22,7 @@ fn main() {
         "c12" => c12::run(&args),
         "c13" => c13::run(&args),
         "c15" => c15::run(&args),
+        "c06-dump" => c06::dump(&args),
         "c16t" => c16t::run(&args),
         "c17a" => c17a::run(&args),
         "c14" | "c03-maps" => c14::run(&args.sub, &args),
